@@ -8,12 +8,12 @@ from props import xargs_common as xc
 RULE = ("(option order over -I R / --replace[=R] / -i / -n k / -L k, initial arguments with 0..3 occurrences of R, input lines with blanks "
         "and R itself, empty lines, empty input) cases; non-trivial = distinct case with a replace option and at least one input line")
 ASSUMPTIONS = [
-    "str::replace (std) is leftmost non-overlapping replacement (modelled by XReplace.replace_all, compared on every case)",
+    "the substitution is leftmost non-overlapping replacement on bytes (replace_all in src/xargs/mod.rs, modelled by XReplace.replace_all and compared on every case, lines that are not UTF-8 included)",
     "clap reports option positions through indices_of; only the relative order of the last occurrences is used",
     "lines are free of quotes, backslashes and leading blanks (the property's own restriction)",
 ]
-RS = [b"{}", b"{}", b"_", b"%%", b"ab", "é".encode(), b"{"]
-WORDS = [b"a", b"b", b"foo", b"x-y", b"{}", b"_", b"ab", b"%%", "é".encode(), b"{", b"}"]
+RS = [b"{}", b"{}", b"_", b"%%", b"ab", "é".encode(), b"{", b"-x"]
+WORDS = [b"a", b"b", b"foo", b"x-y", b"{}", b"_", b"ab", b"%%", "é".encode(), b"{", b"}", b"\xffz", b"a\xfe", b"-x"]
 
 
 def gen_case(rng):
@@ -36,13 +36,21 @@ def gen_case(rng):
     n = rng.choice([1, 1, 2, 3])
     L = rng.choice([1, 2])
     opts, pos, i = [], {}, 0
-    for k in optkinds:
+    occ = [(k, False) for k in optkinds]
+    if rng.random() < 0.2:
+        # the same option once more, earlier, with another value: the last occurrence is the one that counts
+        k = rng.choice(optkinds)
+        occ.insert(rng.randint(0, occ.index((k, False))), (k, True))
+    for k, earlier in occ:
         if k == "R":
-            o = {"I": ["-I", R.decode()], "long=": ["--replace=" + R.decode()], "long": ["--replace"], "i": ["-i"]}[r_form]
+            if earlier:
+                o = ["-I", rng.choice([x for x in RS if x != R]).decode()]
+            else:
+                o = {"I": ["-I", R.decode()], "long=": ["--replace=" + R.decode()], "long": ["--replace"], "i": ["-i"]}[r_form]
         elif k == "n":
-            o = ["-n", str(n)]
+            o = ["-n", str(n + 1 if earlier else n)]
         else:
-            o = ["-L", str(L)]
+            o = ["-L", str(L + 1 if earlier else L)]
         opts += o
         pos[k] = i
         i += 1
@@ -178,9 +186,24 @@ def run(ctx):
                           n=int(form[form.index("-n") + 1]) if "-n" in form else None, L=None, repl=True, r="-r" in form,
                           lines=[], final_nl=False, cmd=[b"cmd", b"x{}y", b"_"]))
     bad = evaluate(ctx, cases)
+    no_command(ctx)
     for c in cases[:5]:
         ctx.sample({"options": c["opts"], "command": [x.decode("utf-8", "replace") for x in c["cmd"]], "input": input_of(c).decode("utf-8", "replace")})
     report(ctx, bad)
+
+
+def no_command(ctx):
+    """-I without a command: the default echo gets no initial argument in which anything could be replaced, and nothing is appended -
+    one empty line per input line (real binary: the default echo writes to standard output itself)"""
+    import subprocess
+    for form in (["-I", "{}"], ["-i"], ["--replace"], ["-I", "_", "-r"]):
+        for data, nlines in ((b"a b\nc\n", 2), (b"", 0), (b"x\n\ny y y", 2)):
+            p = subprocess.run([fw.XARGS] + form, input=data, stdout=subprocess.PIPE, stderr=subprocess.DEVNULL, env=xc.ENV, timeout=60)
+            ctx.count(("no-command", tuple(form), data), True, "no-command")
+            if p.stdout != b"\n" * nlines or p.returncode != 0:
+                ctx.violation("xargs %s (no command) on %r: exit %d, output %r; expected %d empty line(s): nothing is appended in replace mode"
+                              % (" ".join(form), data, p.returncode, p.stdout, nlines),
+                              {"property": "C20", "kind": "no-command", "options": form, "input": fw.hexs(data), "exit": p.returncode, "stdout": fw.hexs(p.stdout)})
 
 
 def replay(ctx, rep):
